@@ -39,7 +39,7 @@ def _lock():
 def build_harness():
     h = os.path.join(VERIF, "harness")
     shutil.copyfile(os.path.join(REPO, "go.sum"), os.path.join(h, "go.sum"))
-    for name in ("worker", "tabledump", "cmdtable", "pubsub", "crash", "snapcrash", "wire"):
+    for name in ("worker", "tabledump", "cmdtable", "pubsub", "crash", "snapcrash", "wire", "sched", "fsm", "cluster"):
         if not os.path.isdir(os.path.join(h, name)):
             continue
         p = sh(["go", "build", "-tags", "verif", "-o", os.path.join(BUILD, name), "./" + name],
@@ -565,6 +565,7 @@ MODE_FUN = {
     "aof": ("Model.AofRun", "run_aof"), "spec02": ("Spec.SpecRunDurable", "run_spec02"),
     "snap": ("Model.SnapServer", "run_snap"), "spec12": ("Spec.SpecRunWire", "run_spec12"),
     "model04": ("Model.ScriptExpiry", "run_model04"), "spec04": ("Spec.SpecRunExpiry", "run_spec04"),
+    "conc": ("Model.ConcRun", "run_conc_script"), "raft": ("Model.RaftRun", "run_raft"),
 }
 
 def _coq_str(s):
